@@ -4,10 +4,13 @@ import (
 	"encoding/json"
 	"fmt"
 	"io/ioutil"
+	"net/http"
+	"net/http/httptest"
 	"path/filepath"
 	"regexp"
 	"sort"
 	"strings"
+	"sync"
 	"sync/atomic"
 	"time"
 
@@ -323,8 +326,73 @@ func CheckC16(env *core.Env, rep *core.Report) *core.Result {
 			e.samples.Add(map[string]interface{}{"features": c.dev(), "yaml": clipS(docs["yaml"], 500), "toml": clipS(docs["toml"], 500)})
 		}
 	})
+	// the same three files fetched over HTTP (-c http://127.0.0.1:<port>/<k>/cfg.<format>): a server that
+	// labels everything text/plain, application/octet-stream or nothing at all leaves the format to the
+	// URL's extension; the three formats still load to the same thing
+	{
+		var mu sync.Mutex
+		served := map[string][]byte{}
+		ctype := map[string]string{}
+		srv := httptest.NewServer(http.HandlerFunc(func(w http.ResponseWriter, r *http.Request) {
+			mu.Lock()
+			b, ok := served[r.URL.Path]
+			ct := ctype[r.URL.Path]
+			mu.Unlock()
+			if !ok {
+				http.NotFound(w, r)
+				return
+			}
+			if ct != "" {
+				w.Header().Set("Content-Type", ct)
+			} else {
+				w.Header()["Content-Type"] = nil // no header at all
+			}
+			_, _ = w.Write(b)
+		}))
+		defer srv.Close()
+		cts := []string{"text/plain; charset=utf-8", "application/octet-stream", "", "text/plain"}
+		k := 0
+		for _, c := range sel {
+			if c.val("import") != "none" || k >= 8 {
+				continue
+			}
+			k++
+			d := env.Sub("fmturl")
+			trace := filepath.Join(d, "trace")
+			outs := map[string][3]string{}
+			for _, f := range formats {
+				doc, _ := buildAbstract(c, trace)
+				b, _ := serialise(doc, f)
+				pth := fmt.Sprintf("/%d/cfg.%s", k, f)
+				mu.Lock()
+				served[pth], ctype[pth] = b, cts[(k+len(f))%len(cts)]
+				mu.Unlock()
+				var o [3]string
+				for j, args := range [][]string{{"list"}, {"show", "main"}, {"--raw", "main"}} {
+					_ = ioutil.WriteFile(trace, nil, 0o644)
+					res := e.run(d, "", 20*time.Second, append([]string{"-c", srv.URL + pth}, args...)...)
+					atomic.AddInt64(&runs, 1)
+					tb, _ := ioutil.ReadFile(trace)
+					o[j] = fmt.Sprintf("exit=%d crashed=%v\n%s\n%s", res.Exit, res.Crashed() || res.TimedOut, normalise(strings.ReplaceAll(res.Stdout, "cfg."+f, "cfg.X"), d), string(tb))
+					if j == 2 {
+						o[j] = fmt.Sprintf("exit=%d crashed=%v\n%s", res.Exit, res.Crashed() || res.TimedOut, string(tb))
+					}
+				}
+				outs[f] = o
+			}
+			for _, f := range []string{"json", "toml"} {
+				for j, name := range []string{"list", "show main", "--raw main"} {
+					if outs[f][j] != outs["yaml"][j] || !strings.HasPrefix(outs[f][0], "exit=0 crashed=false") {
+						rep.Add(core.Finding{Prop: "C16", Key: "C16:over-http:differs:" + f, What: fmt.Sprintf("the configuration fetched over HTTP (content type %q): `taskctl %s` gives %q from the %s file and %q from the yaml file [%s]", ctype[fmt.Sprintf("/%d/cfg.%s", k, f)], name, clipS(outs[f][j], 300), f, clipS(outs["yaml"][j], 300), c.dev()),
+							Detail: map[string]interface{}{"features": c.dev(), "format": f, "command": name}})
+						break
+					}
+				}
+			}
+		}
+	}
 	return e.result("model_checking", int(runs), len(sel),
-		"abstract configurations from Formats.tla (16 features: command scalar/list, before/after absent/scalar/list, timeout string/int, allow_failure, env and variables with string or numeric/boolean values, variations, condition, context plain/with executable struct, depends_on scalar/list, import same-format/cross-format, watcher scalar/list fields, stage env, dir, exportas; default + all single + all pairs; quick: all singles and 40% of pairs), each serialised to YAML, JSON and TOML with the libraries taskctl itself uses and given to list, show main, show dep, graph p, run main, run p, run dep main; exit status, executed commands and (for non-run commands) normalised stdout must agree pairwise, and agree with the model's Built",
+		"abstract configurations from Formats.tla (16 features: command scalar/list, before/after absent/scalar/list, timeout string/int, allow_failure, env and variables with string or numeric/boolean values, variations, condition, context plain/with executable struct, depends_on scalar/list, import same-format/cross-format, watcher scalar/list fields, stage env, dir, exportas; default + all single + all pairs; quick: all singles and 40% of pairs), each serialised to YAML, JSON and TOML with the libraries taskctl itself uses and given to list, show main, show dep, graph p, run main, run p, run dep main; exit status, executed commands and (for non-run commands) normalised stdout must agree pairwise, and agree with the model's Built; eight of them are also fetched over HTTP from a loopback server that labels them text/plain, application/octet-stream or not at all",
 		map[string]interface{}{"vectors_in_model": len(cases), "vectors_run": len(sel)},
 		[]string{"the serialisers are trusted harness code; string keys and values are always quoted by yaml.v2's marshaller (YAML 1.1 implicit typing is avoided)",
 			"that three third-party parsers map bytes to the same tree is observed, not modelled"})
